@@ -1,6 +1,7 @@
 package main
 
 import (
+	"strconv"
 	"sync"
 	"flag"
 	"fmt"
@@ -157,7 +158,13 @@ func cmdVerify(args []string) {
 	}
 	scratch := scratchDir()
 	defer os.RemoveAll(scratch)
-	solveAll(all, solveOpts{timeoutS: *timeout, scratch: scratch, workers: 14})
+	vseed := 0
+	if sv := os.Getenv("VERIF_SEED"); sv != "" {
+		if v, err := strconv.Atoi(sv); err == nil {
+			vseed = v
+		}
+	}
+	solveAll(all, solveOpts{timeoutS: *timeout, seed: vseed, scratch: scratch, workers: 14})
 	bad := 0
 	for _, o := range all {
 		if !o.ok() {
